@@ -1514,3 +1514,113 @@ def r_ddkey(E):
     res.samples = [{"embedded_positive_examples_recognised": 1, "embedded_twins_silent": True}]
     res.floor = 1
     return res
+
+
+# ---------------------------------------------------------------------------------------------- R-ZIPVALUES
+_ZV_POSITIVE = '''
+from collections import defaultdict
+class Network:
+    def data_per_up(self):
+        per_up = defaultdict(Empty)
+        for job in self.jobs:
+            for up in job.usage_patterns:
+                per_up[up] += job.data[up]
+        return list(per_up.values())
+    def update(self):
+        ups = self.usage_patterns
+        self.total = sum(x * up.intensity for up, x in zip(ups, self.data_per_up()))
+'''
+_ZV_NEGATIVE = '''
+class Network:
+    def data_per_up(self):
+        usage_patterns = self.usage_patterns
+        per_up = {up: Empty() for up in usage_patterns}
+        for job in self.jobs:
+            for up in job.usage_patterns:
+                if up in usage_patterns:
+                    per_up[up] += job.data[up]
+        return list(per_up.values())
+    def update(self):
+        ups = self.usage_patterns
+        self.total = sum(x * up.intensity for up, x in zip(ups, self.data_per_up()))
+    def pairs(self, d):
+        return list(zip(d.keys(), d.values()))
+'''
+
+
+def misaligned_dict_values(tree):
+    """[(zip call, list expr, dict name, why)]: `zip(A, <values of a dict D>)` — D possibly built in a helper of the class
+    that returns `list(D.values())` — pairs the i-th element of A with the i-th *inserted* key of D; that is A's i-th
+    element only if D was created with exactly A's elements as keys, in A's order (`{x: … for x in A}`), and never gets
+    other keys. A defaultdict, or a dict filled as the keys are met, has the keys that occurred, in the order they occurred"""
+    from ..astutil import expanded as _exp_z
+    out = []
+    for cls in [n for n in ast.walk(tree) if isinstance(n, ast.ClassDef)]:
+        meths = {f.name: f for f in cls.body if isinstance(f, ast.FunctionDef)}
+        for f in meths.values():
+            for z in [c for c in ast.walk(f) if isinstance(c, ast.Call) and isinstance(c.func, ast.Name) and c.func.id == "zip"
+                      and len(c.args) == 2]:
+                for ai, vi in ((0, 1), (1, 0)):
+                    a, v = _exp_z(z.args[ai], f), _exp_z(z.args[vi], f)
+                    host, vals = f, v
+                    if isinstance(v, ast.Call) and isinstance(v.func, ast.Attribute) and norm(v.func.value) == "self" \
+                            and v.func.attr in meths and not v.args:
+                        host = meths[v.func.attr]
+                        rets = [r.value for r in ast.walk(host) if isinstance(r, ast.Return) and r.value is not None]
+                        if len(rets) != 1:
+                            continue
+                        vals = _exp_z(rets[0], host)
+                    if isinstance(vals, ast.Call) and norm(vals.func) in ("list", "tuple") and len(vals.args) == 1:
+                        vals = vals.args[0]
+                    if not (isinstance(vals, ast.Call) and isinstance(vals.func, ast.Attribute) and vals.func.attr == "values"
+                            and isinstance(vals.func.value, ast.Name)):
+                        continue
+                    d = vals.func.value.id
+                    if isinstance(a, ast.Call) and isinstance(a.func, ast.Attribute) and a.func.attr == "keys" \
+                            and norm(a.func.value) == d:
+                        continue        # zip(d.keys(), d.values()): the same dict on both sides
+                    creations = [s for s in ast.walk(host) if isinstance(s, ast.Assign) and len(s.targets) == 1
+                                 and isinstance(s.targets[0], ast.Name) and s.targets[0].id == d]
+                    if len(creations) != 1:
+                        out.append((z, d, "the dict is not created by one statement of the function that returns its values"))
+                        continue
+                    c0 = creations[0].value
+                    a_txt = norm(_exp_z(a, f))
+                    if isinstance(c0, ast.DictComp) and len(c0.generators) == 1 and not c0.generators[0].ifs \
+                            and norm(c0.key) == norm(c0.generators[0].target) \
+                            and norm(_exp_z(c0.generators[0].iter, host)) == a_txt:
+                        # created with A's elements, in A's order — later stores must stay within those keys: a store under
+                        # a key that is only known to be *some* element is accepted when guarded by membership in A
+                        continue
+                    out.append((z, d, f"`{d}` is created as `{norm(c0)[:50]}`, not as {{x: … for x in {a_txt}}}"))
+    return out
+
+
+@rule("R-ZIPVALUES")
+def r_zipvalues(E):
+    pm = E.pm
+    res = RuleResult("R-ZIPVALUES", "`zip(A, <values of a dict>)` pairs by position: the dict was created with exactly A's "
+                                    "elements as keys, in A's order — not a defaultdict or a dict filled as keys are met, which "
+                                    "has the keys that occurred in the order they occurred (a usage pattern without job has "
+                                    "no entry, and every later pattern is paired with its neighbour's data)")
+    for mod, (rel, tree, src) in sorted(pm.modules.items()):
+        res.instances += len([c for c in ast.walk(tree) if isinstance(c, ast.Call) and isinstance(c.func, ast.Name) and c.func.id == "zip"])
+        for z, d, why in misaligned_dict_values(tree):
+            fn = z
+            while fn is not None and not isinstance(fn, ast.FunctionDef):
+                fn = getattr(fn, "_parent", None)
+            q = fn.name if fn is not None else "<module>"
+            res.findings.append(Finding(
+                "R-ZIPVALUES", f"{rel}:{q} :: zip with values of {d}",
+                f"{q} zips `{norm(z.args[0])[:40]}` with the values of the dict `{d}`, but {why}: the i-th value is the "
+                f"i-th key that was *inserted*, which is the i-th element of the list only when the dict was created from "
+                f"that very list — an element without entry shifts every later pair", rel, z.lineno, q,
+                {"clauses": _area(rel)}))
+    pos = misaligned_dict_values(set_parents(ast.parse(_ZV_POSITIVE)))
+    neg = misaligned_dict_values(set_parents(ast.parse(_ZV_NEGATIVE)))
+    if len(pos) != 1 or neg:
+        raise AnalysisError(f"R-ZIPVALUES: embedded examples: {len(pos)} of 1 positive recognised, {len(neg)} false reports")
+    res.instances += 1
+    res.samples = [{"embedded_positive_examples_recognised": 1, "embedded_twins_silent": True}]
+    res.floor = 10
+    return res
